@@ -473,7 +473,9 @@ func (e *vfEnv) step(a vfAct) (out vfStepOut, stop bool, err error) {
 		}
 		for i := len(l) - 1; i >= 0; i-- {
 			if _, err := e.c.Put(l[i][0], e.vals[l[i][1]-1]); err != nil {
-				return out, true, fmt.Errorf("setup put failed: %v", err)
+				// the code under test refused a Put the model takes
+				// for granted: recorded, judged by the snapshot
+				out.Act.Res = vfERR
 			}
 		}
 		out.Obs = e.observe()
@@ -724,6 +726,7 @@ func vfRandOp(rng *rand.Rand, c vfFreeCfg) vfOp {
 
 func vfFreeTrace(c vfFreeCfg, id int) (out vfPathOut) {
 	out.ID = id
+	out.Steps = []vfStepOut{}
 	rng := rand.New(rand.NewSource(c.Seed*1000003 + int64(id)))
 	e := &vfEnv{cap: c.Cap, sizes: c.Sizes, nk: c.NK}
 	e.c = NewCache[int, *vfVal](uint64(c.Cap))
